@@ -162,7 +162,7 @@ def horizontal_mode(msg: str) -> None | int:
             "contain horizontal mode, use lnav mode instead" % msg
         )
 
-    horizontal_mode = common.bin2int(mb[25:27])
+    horizontal_mode = common.bin2int(mb[37:39])
     if horizontal_mode == 0:
         return None
 
